@@ -15,6 +15,7 @@ RULE = ("seeded pairs from families {uniform, tiny 1e-12..1e-3 deg, near-antipod
 TRUSTED = ["numpy long double sin/cos/atan2/sqrt"]
 ASSUMPTIONS = ["latitudes within [-90,90]; tolerance sphdist 1e-11 deg, gcirc 2e-6 deg (from the statement)"]
 THOROUGH_ROUNDS = 8      # the thorough tier runs the generator over this many derived seeds
+CASE_TIMEOUT = 600
 REQUIRED = {"quick": {"C08.sphdist": 2500, "C08.gcirc": 1200, "C08.relations": 1500},
             "thorough": {"C08.sphdist": 50000, "C08.gcirc": 25000, "C08.relations": 30000}}
 FAMS = ["uniform", "tiny", "antipodal", "band", "polar", "seam", "equal"]
@@ -29,7 +30,7 @@ def cases(seed, tier):
     for i in range(n):
         yield {"family": FAMS[i % 7], "form": FORMS[(i // 7) % len(FORMS)], "sub": int(rng.integers(0, 2**31))}
     for i in range(3 if tier == "quick" else 12):
-        yield {"family": "big", "form": "big", "sub": int(rng.integers(0, 2**31)), "first": i == 0, "cap": 2 ** 21 + 1 if tier == "quick" else None}
+        yield {"family": "big", "form": "big", "sub": int(rng.integers(0, 2**31)), "first": i == 0, "cap": 2 ** 21 + 1 if tier == "quick" else 5 * 10 ** 6 + 3}
 
 
 def run_big(case):
